@@ -88,6 +88,13 @@ pub fn find_events(kind: Kind, vseed: u64, n_seeds: u64, words_per_seed: u64, ke
                             push(i, "all-ones word", w as u64, &mut out);
                         }
                         prev = w;
+                        if !m.internal.is_empty() {
+                            // coincidences inside the block that word i has just caused to be generated;
+                            // the whole block is handed out by word i + 255
+                            for (_step, what, value) in m.internal.drain(..) {
+                                push(i + 255, what, value as u64, &mut out);
+                            }
+                        }
                     }
                 }
                 Kind::Isaac64 => {
@@ -129,7 +136,7 @@ pub fn events_for(kind: Kind, vseed: u64, thorough: bool) -> (Vec<Event>, u64) {
     let n_seeds: u64 = if thorough { 1 << 16 } else { 1 << 14 };
     let words_per_seed: u64 = 1 << 20;
     let dir = std::env::var("VERIF_CACHE").unwrap_or_else(|_| "/verif/harness/target".to_string());
-    let path = format!("{}/rare2-{:?}-{}-{}.json", dir, kind, vseed, n_seeds);
+    let path = format!("{}/rare3-{:?}-{}-{}.json", dir, kind, vseed, n_seeds);
     if let Ok(t) = std::fs::read_to_string(&path) {
         if let Ok(v) = serde_json::from_str::<serde_json::Value>(&t) {
             if let Some(a) = v.get("events").and_then(|e| e.as_array()) {
@@ -167,6 +174,12 @@ fn intern(s: &str) -> &'static str {
         "word with a zero lower half",
         "word with equal halves",
         "word with an all-ones upper half",
+        "step whose second looked-up word equals the old word of the slot being rewritten, in another slot",
+        "step whose first looked-up word equals the old word of the slot being rewritten, in another slot",
+        "step that rewrites its slot with the same word",
+        "step whose two looked-up words are equal in different slots",
+        "step with a zero looked-up word",
+        "step with a zero accumulator or a zero new table word",
     ] {
         if k == s {
             return k;
